@@ -1,1 +1,304 @@
-//! (reference for aes: to be written)
+//! FIPS-197 AES, byte-oriented, in the standard's own structure (Section 5: Cipher, KeyExpansion,
+//! InvCipher, EqInvCipher).  The S-box is *computed* from its definition (multiplicative inverse in
+//! GF(2^8) mod x^8+x^4+x^3+x+1 followed by the affine transformation of 5.1.1), not typed.
+//! State layout: a block is 16 bytes in[0..16]; state s[r][c] = in[r + 4c] (FIPS-197 3.4); all
+//! functions below work directly on the 16-byte block in that column-major order.
+//! Vectors: FIPS-197 Appendix B and C.1-C.3.
+
+pub type Block = [u8; 16];
+
+pub const fn xtime(a: u8) -> u8 { (a << 1) ^ (if a & 0x80 != 0 { 0x1b } else { 0 }) }
+
+pub const fn gmul(a: u8, b: u8) -> u8 {
+    let mut p = 0u8;
+    let mut a = a;
+    let mut b = b;
+    let mut i = 0;
+    while i < 8 {
+        if b & 1 != 0 { p ^= a; }
+        a = xtime(a);
+        b >>= 1;
+        i += 1;
+    }
+    p
+}
+
+/// multiplicative inverse in GF(2^8), 0 -> 0: a^254
+pub const fn ginv(a: u8) -> u8 {
+    let mut r = 1u8;
+    let mut i = 0;
+    while i < 254 {
+        r = gmul(r, a);
+        i += 1;
+    }
+    if a == 0 { 0 } else { r }
+}
+
+const fn affine(b: u8) -> u8 {
+    b ^ b.rotate_left(1) ^ b.rotate_left(2) ^ b.rotate_left(3) ^ b.rotate_left(4) ^ 0x63
+}
+
+const fn make_sbox() -> [u8; 256] {
+    let mut t = [0u8; 256];
+    let mut i = 0;
+    while i < 256 {
+        t[i] = affine(ginv(i as u8));
+        i += 1;
+    }
+    t
+}
+const fn make_inv(t: &[u8; 256]) -> [u8; 256] {
+    let mut r = [0u8; 256];
+    let mut i = 0;
+    while i < 256 {
+        r[t[i] as usize] = i as u8;
+        i += 1;
+    }
+    r
+}
+pub const SBOX: [u8; 256] = make_sbox();
+pub const INV_SBOX: [u8; 256] = make_inv(&SBOX);
+
+pub fn sub_bytes(s: &Block) -> Block {
+    let mut o = [0u8; 16];
+    let mut i = 0;
+    while i < 16 { o[i] = SBOX[s[i] as usize]; i += 1; }
+    o
+}
+pub fn inv_sub_bytes(s: &Block) -> Block {
+    let mut o = [0u8; 16];
+    let mut i = 0;
+    while i < 16 { o[i] = INV_SBOX[s[i] as usize]; i += 1; }
+    o
+}
+/// ShiftRows: s'[r][c] = s[r][(c + r) mod 4]
+pub fn shift_rows(s: &Block) -> Block {
+    let mut o = [0u8; 16];
+    let mut c = 0;
+    while c < 4 {
+        let mut r = 0;
+        while r < 4 {
+            o[r + 4 * c] = s[r + 4 * ((c + r) % 4)];
+            r += 1;
+        }
+        c += 1;
+    }
+    o
+}
+/// InvShiftRows: s'[r][(c + r) mod 4] = s[r][c]
+pub fn inv_shift_rows(s: &Block) -> Block {
+    let mut o = [0u8; 16];
+    let mut c = 0;
+    while c < 4 {
+        let mut r = 0;
+        while r < 4 {
+            o[r + 4 * ((c + r) % 4)] = s[r + 4 * c];
+            r += 1;
+        }
+        c += 1;
+    }
+    o
+}
+/// ShiftRows applied k times (k mod 4)
+pub fn shift_rows_k(s: &Block, k: usize) -> Block {
+    let mut o = *s;
+    let mut i = 0;
+    while i < (k % 4) { o = shift_rows(&o); i += 1; }
+    o
+}
+pub fn inv_shift_rows_k(s: &Block, k: usize) -> Block {
+    let mut o = *s;
+    let mut i = 0;
+    while i < (k % 4) { o = inv_shift_rows(&o); i += 1; }
+    o
+}
+pub fn mix_columns(s: &Block) -> Block {
+    let mut o = [0u8; 16];
+    let mut c = 0;
+    while c < 4 {
+        let (a0, a1, a2, a3) = (s[4 * c], s[4 * c + 1], s[4 * c + 2], s[4 * c + 3]);
+        o[4 * c] = xtime(a0) ^ (xtime(a1) ^ a1) ^ a2 ^ a3;
+        o[4 * c + 1] = a0 ^ xtime(a1) ^ (xtime(a2) ^ a2) ^ a3;
+        o[4 * c + 2] = a0 ^ a1 ^ xtime(a2) ^ (xtime(a3) ^ a3);
+        o[4 * c + 3] = (xtime(a0) ^ a0) ^ a1 ^ a2 ^ xtime(a3);
+        c += 1;
+    }
+    o
+}
+pub fn inv_mix_columns(s: &Block) -> Block {
+    let mut o = [0u8; 16];
+    let mut c = 0;
+    while c < 4 {
+        let (a0, a1, a2, a3) = (s[4 * c], s[4 * c + 1], s[4 * c + 2], s[4 * c + 3]);
+        o[4 * c] = gmul(a0, 0x0e) ^ gmul(a1, 0x0b) ^ gmul(a2, 0x0d) ^ gmul(a3, 0x09);
+        o[4 * c + 1] = gmul(a0, 0x09) ^ gmul(a1, 0x0e) ^ gmul(a2, 0x0b) ^ gmul(a3, 0x0d);
+        o[4 * c + 2] = gmul(a0, 0x0d) ^ gmul(a1, 0x09) ^ gmul(a2, 0x0e) ^ gmul(a3, 0x0b);
+        o[4 * c + 3] = gmul(a0, 0x0b) ^ gmul(a1, 0x0d) ^ gmul(a2, 0x09) ^ gmul(a3, 0x0e);
+        c += 1;
+    }
+    o
+}
+pub fn xor_block(a: &Block, b: &Block) -> Block {
+    let mut o = [0u8; 16];
+    let mut i = 0;
+    while i < 16 { o[i] = a[i] ^ b[i]; i += 1; }
+    o
+}
+
+/// KeyExpansion (5.2) for Nk = 4, 6, 8: `w` receives 4*(Nr+1) words as 16-byte round keys.
+/// `NK4` = 4*Nk key bytes, `NR1` = Nr + 1 round keys.
+pub fn key_expansion<const NK4: usize, const NR1: usize>(key: &[u8; NK4]) -> [Block; NR1] {
+    let nk = NK4 / 4;
+    let mut w = [[0u8; 4]; 60];
+    let mut i = 0;
+    while i < nk {
+        w[i] = [key[4 * i], key[4 * i + 1], key[4 * i + 2], key[4 * i + 3]];
+        i += 1;
+    }
+    let mut rcon = 1u8;
+    while i < 4 * NR1 {
+        let mut t = w[i - 1];
+        if i % nk == 0 {
+            // SubWord(RotWord(t)) xor Rcon
+            t = [SBOX[t[1] as usize] ^ rcon, SBOX[t[2] as usize], SBOX[t[3] as usize], SBOX[t[0] as usize]];
+            rcon = xtime(rcon);
+        } else if nk > 6 && i % nk == 4 {
+            t = [SBOX[t[0] as usize], SBOX[t[1] as usize], SBOX[t[2] as usize], SBOX[t[3] as usize]];
+        }
+        w[i] = [w[i - nk][0] ^ t[0], w[i - nk][1] ^ t[1], w[i - nk][2] ^ t[2], w[i - nk][3] ^ t[3]];
+        i += 1;
+    }
+    let mut rk = [[0u8; 16]; NR1];
+    let mut r = 0;
+    while r < NR1 {
+        let mut c = 0;
+        while c < 4 {
+            rk[r][4 * c] = w[4 * r + c][0];
+            rk[r][4 * c + 1] = w[4 * r + c][1];
+            rk[r][4 * c + 2] = w[4 * r + c][2];
+            rk[r][4 * c + 3] = w[4 * r + c][3];
+            c += 1;
+        }
+        r += 1;
+    }
+    rk
+}
+
+/// Cipher (5.1) with NR1 = Nr + 1 round keys.
+pub fn cipher<const NR1: usize>(rk: &[Block; NR1], input: &Block) -> Block {
+    let mut s = xor_block(input, &rk[0]);
+    let mut r = 1;
+    while r < NR1 - 1 {
+        s = xor_block(&mix_columns(&shift_rows(&sub_bytes(&s))), &rk[r]);
+        r += 1;
+    }
+    xor_block(&shift_rows(&sub_bytes(&s)), &rk[NR1 - 1])
+}
+
+/// InvCipher (5.3).
+pub fn inv_cipher<const NR1: usize>(rk: &[Block; NR1], input: &Block) -> Block {
+    let mut s = xor_block(input, &rk[NR1 - 1]);
+    let mut r = NR1 - 2;
+    while r >= 1 {
+        s = inv_mix_columns(&xor_block(&inv_sub_bytes(&inv_shift_rows(&s)), &rk[r]));
+        r -= 1;
+    }
+    xor_block(&inv_sub_bytes(&inv_shift_rows(&s)), &rk[0])
+}
+
+/// Decryption round keys of the Equivalent Inverse Cipher (5.3.5): dw[r] = InvMixColumns(w[r]) for 0 < r < Nr.
+pub fn eq_inv_keys<const NR1: usize>(rk: &[Block; NR1]) -> [Block; NR1] {
+    let mut d = *rk;
+    let mut r = 1;
+    while r < NR1 - 1 {
+        d[r] = inv_mix_columns(&rk[r]);
+        r += 1;
+    }
+    d
+}
+/// EqInvCipher (5.3.5) with the modified key schedule `dk` (same indexing as rk).
+pub fn eq_inv_cipher<const NR1: usize>(dk: &[Block; NR1], input: &Block) -> Block {
+    let mut s = xor_block(input, &dk[NR1 - 1]);
+    let mut r = NR1 - 2;
+    while r >= 1 {
+        s = xor_block(&inv_mix_columns(&inv_shift_rows(&inv_sub_bytes(&s))), &dk[r]);
+        r -= 1;
+    }
+    xor_block(&inv_shift_rows(&inv_sub_bytes(&s)), &dk[0])
+}
+
+pub fn aes128_encrypt(key: &[u8; 16], b: &Block) -> Block { cipher::<11>(&key_expansion::<16, 11>(key), b) }
+pub fn aes192_encrypt(key: &[u8; 24], b: &Block) -> Block { cipher::<13>(&key_expansion::<24, 13>(key), b) }
+pub fn aes256_encrypt(key: &[u8; 32], b: &Block) -> Block { cipher::<15>(&key_expansion::<32, 15>(key), b) }
+pub fn aes128_decrypt(key: &[u8; 16], b: &Block) -> Block { inv_cipher::<11>(&key_expansion::<16, 11>(key), b) }
+pub fn aes192_decrypt(key: &[u8; 24], b: &Block) -> Block { inv_cipher::<13>(&key_expansion::<24, 13>(key), b) }
+pub fn aes256_decrypt(key: &[u8; 32], b: &Block) -> Block { inv_cipher::<15>(&key_expansion::<32, 15>(key), b) }
+
+/// One full encryption round as used by the hazmat API: MixColumns(ShiftRows(SubBytes(b))) xor k
+pub fn cipher_round(b: &Block, k: &Block) -> Block { xor_block(&mix_columns(&shift_rows(&sub_bytes(b))), k) }
+/// InvMixColumns(InvShiftRows(InvSubBytes(b))) xor k
+pub fn equiv_inv_cipher_round(b: &Block, k: &Block) -> Block { xor_block(&inv_mix_columns(&inv_shift_rows(&inv_sub_bytes(b))), k) }
+
+#[cfg(test)]
+mod tests {
+    use super::*;
+    fn hex<const N: usize>(s: &str) -> [u8; N] {
+        let mut o = [0u8; N];
+        for i in 0..N { o[i] = u8::from_str_radix(&s[2 * i..2 * i + 2], 16).unwrap(); }
+        o
+    }
+    #[test]
+    fn sbox_values() {
+        assert_eq!(SBOX[0], 0x63); assert_eq!(SBOX[1], 0x7c); assert_eq!(SBOX[0x53], 0xed); assert_eq!(SBOX[0xff], 0x16);
+        assert_eq!(INV_SBOX[0x63], 0); assert_eq!(INV_SBOX[0xed], 0x53);
+        assert_eq!(gmul(0x57, 0x83), 0xc1); assert_eq!(gmul(0x57, 0x13), 0xfe);
+    }
+    #[test]
+    fn appendix_b() {
+        let key: [u8; 16] = hex("2b7e151628aed2a6abf7158809cf4f3c");
+        let pt: Block = hex("3243f6a8885a308d313198a2e0370734");
+        let ct: Block = hex("3925841d02dc09fbdc118597196a0b32");
+        assert_eq!(aes128_encrypt(&key, &pt), ct);
+        let rk = key_expansion::<16, 11>(&key);
+        assert_eq!(rk[10], hex::<16>("d014f9a8c9ee2589e13f0cc8b6630ca6"));
+        assert_eq!(rk[1], hex::<16>("a0fafe1788542cb123a339392a6c7605"));
+    }
+    #[test]
+    fn appendix_c() {
+        let pt: Block = hex("00112233445566778899aabbccddeeff");
+        let k1: [u8; 16] = hex("000102030405060708090a0b0c0d0e0f");
+        let c1: Block = hex("69c4e0d86a7b0430d8cdb78070b4c55a");
+        assert_eq!(aes128_encrypt(&k1, &pt), c1);
+        assert_eq!(aes128_decrypt(&k1, &c1), pt);
+        let k2: [u8; 24] = hex("000102030405060708090a0b0c0d0e0f1011121314151617");
+        let c2: Block = hex("dda97ca4864cdfe06eaf70a0ec0d7191");
+        assert_eq!(aes192_encrypt(&k2, &pt), c2);
+        assert_eq!(aes192_decrypt(&k2, &c2), pt);
+        let k3: [u8; 32] = hex("000102030405060708090a0b0c0d0e0f101112131415161718191a1b1c1d1e1f");
+        let c3: Block = hex("8ea2b7ca516745bfeafc49904b496089");
+        assert_eq!(aes256_encrypt(&k3, &pt), c3);
+        assert_eq!(aes256_decrypt(&k3, &c3), pt);
+        // equivalent inverse cipher agrees
+        let rk = key_expansion::<32, 15>(&k3);
+        assert_eq!(eq_inv_cipher::<15>(&eq_inv_keys(&rk), &c3), pt);
+        let rk = key_expansion::<24, 13>(&k2);
+        assert_eq!(eq_inv_cipher::<13>(&eq_inv_keys(&rk), &c2), pt);
+        // 192 key expansion vector (A.2): w[51] = 01002202
+        assert_eq!(&key_expansion::<24, 13>(&hex("8e73b0f7da0e6452c810f32b809079e562f8ead2522c6b7b"))[12][12..16], &hex::<4>("01002202"));
+        // 256 key expansion vector (A.3): w[59] = 706c631e
+        assert_eq!(&key_expansion::<32, 15>(&hex("603deb1015ca71be2b73aef0857d77811f352c073b6108d72d9810a30914dff4"))[14][12..16], &hex::<4>("706c631e"));
+    }
+    #[test]
+    fn layers_inverse() {
+        let x: Block = hex("00112233445566778899aabbccddeeff");
+        assert_eq!(inv_shift_rows(&shift_rows(&x)), x);
+        assert_eq!(inv_mix_columns(&mix_columns(&x)), x);
+        assert_eq!(inv_sub_bytes(&sub_bytes(&x)), x);
+        assert_eq!(shift_rows_k(&x, 4), x);
+        // C.1 round 1: start_of_round 00102030.. -> after sub_bytes 63cab704..; after shift_rows 6353e08c..; after mix_columns 5f726415..
+        let s: Block = hex("00102030405060708090a0b0c0d0e0f0");
+        assert_eq!(sub_bytes(&s), hex::<16>("63cab7040953d051cd60e0e7ba70e18c"));
+        assert_eq!(shift_rows(&sub_bytes(&s)), hex::<16>("6353e08c0960e104cd70b751bacad0e7"));
+        assert_eq!(mix_columns(&shift_rows(&sub_bytes(&s))), hex::<16>("5f72641557f5bc92f7be3b291db9f91a"));
+    }
+}
